@@ -195,6 +195,9 @@ func vPool(nodeSubnets []string, gateway, subnet string, vlan uint16, ranges ...
 	}
 	p.Mask = sn.Mask
 	p.Vlan = vlan
+	if VPoolVlanOverride != nil {
+		p.Vlan = *VPoolVlanOverride
+	}
 	for _, r := range ranges {
 		ipr := nets.ParseIPRange(r)
 		if ipr == nil {
@@ -209,6 +212,9 @@ func vPool(nodeSubnets []string, gateway, subnet string, vlan uint16, ranges ...
 }
 
 const VNumTopologies = 4
+
+// VPoolVlanOverride, if set, replaces the VLAN id of every pool built by VTopology (lets a harness make it symbolic).
+var VPoolVlanOverride *uint16
 
 // VTopology returns fresh pool structs (ConfigurePool writes into them), the configured IPs in
 // ascending order and the node subnets that occur.
